@@ -82,18 +82,29 @@ func runC13(r *Run, p *Prog) {
 				}
 			}
 		}
-		// the reply builder: the function storing into members with keys = outFields
-		var builder *ssa.Function
-		var out *ssa.Alloc
+		// the GetInfo handler: the innermost Service method whose inlined view fills a struct with keys = outFields (the
+		// struct may be filled by a reply-builder helper taking the values as parameters, or in the handler itself)
+		keepAPI := func(c *ssa.Function) bool {
+			return c.Signature.Recv() != nil && isNamed(c.Signature.Recv().Type(), pkgVarlink, "Call") && c.Object() != nil && c.Object().Exported()
+		}
+		type cand struct {
+			v   *ssa.Function
+			out *ssa.Alloc
+		}
+		cands := map[*ssa.Function]cand{}
 		for _, f := range p.FuncsOf(pkgVarlink) {
-			for _, b := range f.Blocks {
+			if f.Parent() != nil || f.Signature.Recv() == nil || !isNamed(f.Signature.Recv().Type(), pkgVarlink, "Service") {
+				continue
+			}
+			v := p.Inlined(f, keepAPI)
+			for _, b := range v.Blocks {
 				for _, in := range b.Instrs {
 					a, ok := in.(*ssa.Alloc)
 					if !ok {
 						continue
 					}
 					st := derefStruct(a.Type())
-					if st == nil || st.NumFields() != 5 || !isNamedRecvOrParam(f, "Call") {
+					if st == nil || st.NumFields() != 5 {
 						continue
 					}
 					match := true
@@ -103,35 +114,62 @@ func runC13(r *Run, p *Prog) {
 						}
 					}
 					if match && len(fieldStores(a)) > 0 {
-						builder, out = f, a
+						cands[f] = cand{v, a}
 					}
 				}
 			}
 		}
-		if builder == nil {
-			r.Ob("M1", "-", "GetInfo reply struct has members keyed "+strings.Join(outFields, ", ")+" in description order", ctor.Pos(), false, "no reply struct whose JSON keys are the GetInfo output fields of the description, in order")
-			return
-		}
-		ofs := fieldStores(out)
-		ost := derefStruct(out.Type())
-		paramPos := map[string]int{}
-		for i, prm := range builder.Params {
-			paramPos[prm.Name()] = i
-		}
-		memberParam := make([]int, 5)
-		for i := 0; i < 5; i++ {
-			vals := ofs[ost.Field(i).Name()]
-			memberParam[i] = -1
-			if len(vals) == 1 {
-				if prm, ok := vals[0].(*ssa.Parameter); ok {
-					memberParam[i] = paramPos[prm.Name()]
+		var hv *ssa.Function
+		var out *ssa.Alloc
+		for f, c := range cands {
+			inner := true
+			for g := range cg.Reach([]*ssa.Function{f}, false) {
+				if _, isC := cands[g]; g != f && isC {
+					inner = false
 				}
 			}
-			r.Ob("M1", shortName(builder), "reply member `"+outFields[i]+"` is a parameter of the reply builder, unchanged", out.Pos(), memberParam[i] >= 0, fmt.Sprintf("member is %v", termsOf(T, vals)))
+			if inner && (hv == nil || c.v.Pos() < hv.Pos()) {
+				hv, out = c.v, c.out
+			}
+		}
+		if hv == nil {
+			r.Ob("M1", "-", "GetInfo reply struct has members keyed "+strings.Join(outFields, ", ")+" in description order", ctor.Pos(), false, "no Service method fills a reply struct whose JSON keys are the GetInfo output fields of the description, in order")
+			return
+		}
+		ls = ComputeLockSets(p, cg, append(p.FuncsOf(pkgVarlink), hv)) // (with the view just made)
+		ofs := fieldStores(out)
+		ost := derefStruct(out.Type())
+		recvName := hv.Params[0].Name()
+		for i := 0; i < 4 && i < len(idFields); i++ {
+			vals := ofs[ost.Field(i).Name()]
+			ok := len(vals) == 1 && idFields[i] != "" && svcTerm(strip(T.T(vals[0])), recvName, idFields[i])
+			r.Ob("M1", shortName(hv), "GetInfo reports `"+outFields[i]+"` from the field NewService stored it in, unchanged", out.Pos(), ok,
+				fmt.Sprintf("`%s` is filled from %v, expected param:%s.%s", outFields[i], termsOf(T, vals), recvName, idFields[i]))
+		}
+		{
+			vals := ofs[ost.Field(4).Name()]
+			got, locked, okCopy := "nothing", false, false
+			if len(vals) == 1 {
+				v := vals[0]
+				got = strip(T.T(v))
+				okCopy = svcTerm(got, recvName, svcF.Names)
+				if rest, isApp := strings.CutPrefix(got, "call:append(nil,"); isApp && !okCopy {
+					if i := strings.IndexAny(rest, ",)"); i >= 0 {
+						okCopy = svcTerm(rest[:i], recvName, svcF.Names)
+					}
+				}
+				if c, ok := v.(*ssa.Call); ok && ls != nil {
+					locked = len(ls.At[c]) > 0
+				} else if u, ok := v.(*ssa.UnOp); ok && ls != nil {
+					locked = len(ls.At[u]) > 0
+				}
+			}
+			r.Ob("M1", shortName(hv), "GetInfo reports `interfaces` from the registration-order list (read under the mutex)", out.Pos(), okCopy && locked,
+				fmt.Sprintf("`interfaces` is filled from %s (read under the mutex: %v); expected the Service's names list or a copy of it", got, locked))
 		}
 		// the reply is what is sent
 		sent := false
-		for _, cs := range callsIn(builder, false) {
+		for _, cs := range callsIn(hv, false) {
 			for _, a := range cs.Common.Args {
 				if unwrapAlloc(a) == out {
 					if t := staticTarget(cs.Common); t != nil {
@@ -144,38 +182,7 @@ func runC13(r *Run, p *Prog) {
 				}
 			}
 		}
-		r.Ob("M1", shortName(builder), "the reply struct is what is sent", out.Pos(), sent, "the filled struct is not handed to the reply path")
-		// the handler calling the builder
-		n := 0
-		for _, cs := range cg.Callers[builder] {
-			h := cs.Fn
-			n++
-			for i := 0; i < 4; i++ {
-				if memberParam[i] < 0 || memberParam[i] >= len(cs.Common.Args) {
-					continue
-				}
-				got := strip(T.T(cs.Common.Args[memberParam[i]]))
-				want := "param:" + h.Params[0].Name() + "." + idFields[i]
-				r.Ob("M1", shortName(h), "GetInfo reports `"+outFields[i]+"` from the field NewService stored it in", cs.Instr.Pos(), got == want, fmt.Sprintf("`%s` is filled from %s, expected %s", outFields[i], got, want))
-			}
-			if memberParam[4] >= 0 && memberParam[4] < len(cs.Common.Args) {
-				v := cs.Common.Args[memberParam[4]]
-				got := strip(T.T(v))
-				recvName := h.Params[0].Name()
-				okCopy := strings.HasPrefix(got, "call:append(nil,param:"+recvName+"."+svcF.Names) || got == "param:"+recvName+"."+svcF.Names
-				locked := false
-				if c, ok := v.(*ssa.Call); ok && ls != nil {
-					locked = len(ls.At[c]) > 0
-				} else if u, ok := v.(*ssa.UnOp); ok && ls != nil {
-					locked = len(ls.At[u]) > 0
-				}
-				r.Ob("M1", shortName(h), "GetInfo reports `interfaces` from the registration-order list (read under the mutex)", cs.Instr.Pos(), okCopy && locked,
-					fmt.Sprintf("`interfaces` is filled from %s (read under the mutex: %v); expected the Service's names list or a copy of it", got, locked))
-			}
-		}
-		if n == 0 {
-			r.Unresolved("M1", "caller of the GetInfo reply builder")
-		}
+		r.Ob("M1", shortName(hv), "the reply struct is what is sent", out.Pos(), sent, "the filled struct is not handed to the reply path")
 	})
 	// ---- M1 client side
 	r.Guard("M1c", func() {
@@ -241,6 +248,11 @@ func runC13(r *Run, p *Prog) {
 	})
 	// ---- M2
 	r.Guard("M2", func() {
+		// registration in its inlined view: the tables may be updated by a method of a nested state struct (`s.registry.add`)
+		regBuilt := reg
+		reg := p.Inlined(regBuilt, nil)
+		cg.AddView(reg)
+		ls = ComputeLockSets(p, cg, p.FuncsOf(pkgVarlink))
 		recv := reg.Params[0].Name()
 		ifaceP := reg.Params[1].Name()
 		keyT := "call:invoke:VarlinkGetName(param:" + ifaceP + ")"
@@ -254,7 +266,7 @@ func runC13(r *Run, p *Prog) {
 					if f.A == "const:false" {
 						o = strip(f.B)
 					}
-					if strings.HasPrefix(o, "ext(lookup(param:"+recv+"."+svcF.Interfaces+","+keyT+"),1)") {
+					if strings.HasPrefix(o, "ext(lookup(param:"+recv+"."+svcF.Interfaces+","+keyT+"),1)") || isRegisteredTest(o, recv, keyT) {
 						notReg = true
 					}
 				}
@@ -268,7 +280,7 @@ func runC13(r *Run, p *Prog) {
 			case *ssa.MapUpdate:
 				t := strip(T.T(x.Map))
 				for _, f := range []string{svcF.Interfaces, svcF.Descriptions} {
-					if t == "param:"+recv+"."+f {
+					if t == "param:"+recv+"."+f || svcTerm(t, recv, f) {
 						return f, true
 					}
 				}
@@ -307,7 +319,13 @@ func runC13(r *Run, p *Prog) {
 				case *ssa.Store:
 					got := strip(T.T(x.Val))
 					want := "call:append(param:" + recv + "." + svcF.Names + ","
-					r.Ob("M2", shortName(reg), "names = append(names, name): registration order, appended at the end", in.Pos(), strings.HasPrefix(got, want) && strings.Contains(got, keyT) || strings.HasPrefix(got, want),
+					okApp := strings.HasPrefix(got, want)
+					if rest, isApp := strings.CutPrefix(got, "call:append("); isApp && !okApp {
+						if i := strings.Index(rest, ","); i >= 0 {
+							okApp = svcTerm(rest[:i], recv, svcF.Names)
+						}
+					}
+					r.Ob("M2", shortName(reg), "names = append(names, name): registration order, appended at the end", in.Pos(), okApp,
 						"names is updated as "+got)
 					// the appended element is the name
 					if c, ok := x.Val.(*ssa.Call); ok && len(c.Call.Args) == 2 {
@@ -326,7 +344,7 @@ func runC13(r *Run, p *Prog) {
 				fs := T.edgeFactsOn(b, s)
 				refuse := m.runningFact(fs, true)
 				for _, f := range fs {
-					if f.Op == "EQ" && (f.A == "const:true" || f.B == "const:true") && strings.Contains(f.A+f.B, "lookup(param:"+recv+"."+svcF.Interfaces+",") {
+					if f.Op == "EQ" && (f.A == "const:true" || f.B == "const:true") && (strings.Contains(f.A+f.B, "lookup(param:"+recv+"."+svcF.Interfaces+",") || isRegisteredTest(strip(f.A), recv, "") || isRegisteredTest(strip(f.B), recv, "")) {
 						refuse = true
 					}
 				}
@@ -343,8 +361,11 @@ func runC13(r *Run, p *Prog) {
 		// no other writers
 		for _, fld := range []string{svcF.Interfaces, svcF.Descriptions, svcF.Names} {
 			var fns []*ssa.Function
+			covered := onlyCalledFrom(cg, map[*ssa.Function]bool{ctor: true, regBuilt: true, reg: true})
 			for _, f := range p.FuncsOf(pkgVarlink) {
-				if f != ctor && f != reg {
+				// (helpers called from nowhere but construction and registration are part of them: their updates are
+				// judged above, in the view)
+				if f != ctor && f != reg && f != regBuilt && !covered[f] {
 					fns = append(fns, f)
 				}
 			}
@@ -370,7 +391,9 @@ func runC13(r *Run, p *Prog) {
 		r.Ob("M3", shortName(ctor), "the built-in interface is registered on every path before the Service is returned", ctor.Pos(), ok, "")
 		// names starts empty: no store to names in the constructor literal
 		var svc *ssa.Alloc
-		for _, b := range ctor.Blocks {
+		// (in the constructor's view: the tables may be made by a helper, `registry: newRegistry()`)
+		ctorV := p.Inlined(ctor, func(c *ssa.Function) bool { return c == reg })
+		for _, b := range ctorV.Blocks {
 			for _, in := range b.Instrs {
 				if a, ok := in.(*ssa.Alloc); ok && isNamed(a.Type(), pkgVarlink, "Service") {
 					svc = a
@@ -379,7 +402,12 @@ func runC13(r *Run, p *Prog) {
 		}
 		if svc != nil {
 			fs := fieldStores(svc)
-			empty := len(fs[svcF.Names]) == 0
+			empty := true
+			for _, v := range fs[svcF.Names] {
+				if c, isC := v.(*ssa.Const); !isC || !c.IsNil() {
+					empty = false
+				}
+			}
 			maps := len(fs[svcF.Interfaces]) == 1 && len(fs[svcF.Descriptions]) == 1
 			for _, f := range []string{svcF.Interfaces, svcF.Descriptions} {
 				for _, v := range fs[f] {
@@ -393,14 +421,36 @@ func runC13(r *Run, p *Prog) {
 	})
 	// ---- M4
 	r.Guard("M4", func() {
+		// the handler: the innermost function returning an error whose inlined view looks the name up in the description
+		// table (the lookup itself may be an accessor of the table's owner, `s.registry.description(name)`)
 		var h *ssa.Function
+		cands := map[*ssa.Function]*ssa.Function{}
 		for _, f := range p.FuncsOf(pkgVarlink) {
-			for _, b := range f.Blocks {
+			res := f.Signature.Results()
+			if f == reg || f.Parent() != nil || res.Len() == 0 || !isErrorType(res.At(res.Len()-1).Type()) {
+				continue
+			}
+			// (the replies stay calls)
+			v := p.Inlined(f, func(c *ssa.Function) bool {
+				return c.Signature.Recv() != nil && isNamed(c.Signature.Recv().Type(), pkgVarlink, "Call") && c.Object() != nil && c.Object().Exported()
+			})
+			for _, b := range v.Blocks {
 				for _, in := range b.Instrs {
-					if lk, ok := in.(*ssa.Lookup); ok && strings.HasSuffix(strip(T.T(lk.X)), "."+svcF.Descriptions) && f != reg {
-						h = f
+					if lk, ok := in.(*ssa.Lookup); ok && strings.HasSuffix(strip(T.T(lk.X)), "."+svcF.Descriptions) {
+						cands[f] = v
 					}
 				}
+			}
+		}
+		for f, v := range cands {
+			inner := true
+			for g := range cg.Reach([]*ssa.Function{f}, false) {
+				if g != f && cands[g] != nil {
+					inner = false
+				}
+			}
+			if inner && (h == nil || v.Pos() < h.Pos()) {
+				h = v
 			}
 		}
 		if h == nil {
@@ -431,6 +481,7 @@ func runC13(r *Run, p *Prog) {
 			}
 		}
 		n := 0
+		srvOutView := ""
 		for _, rv := range returnedValues(h, 0) {
 			c, ok := rv.Val.(*ssa.Call)
 			if !ok {
@@ -459,6 +510,15 @@ func runC13(r *Run, p *Prog) {
 				for _, a := range c.Call.Args {
 					if strip(T.T(a)) == "ext("+lk+",0)" {
 						okArg = true
+					}
+					// the reply struct, filled here or by an (inlined) reply builder: its one member is the text
+					if al := unwrapAlloc(a); al != nil {
+						if st := derefStruct(al.Type()); st != nil && st.NumFields() == 1 {
+							if vals := fieldStores(al)[st.Field(0).Name()]; len(vals) == 1 && strip(T.T(vals[0])) == "ext("+lk+",0)" {
+								okArg = true
+								srvOutView = jsonKey(st, 0)
+							}
+						}
 					}
 				}
 				r.Ob("M4", shortName(h), "a registered name is answered with descriptions[name] unchanged", rv.Ret.Pos(), okArg && name != "varlink.Call.ReplyInvalidParameter", "reply is "+strip(T.T(c)))
@@ -556,6 +616,9 @@ func runC13(r *Run, p *Prog) {
 				}
 			}
 		}
+		if srvOutView != "" {
+			srvOut = srvOutView // the key of the struct the handler was seen to reply with
+		}
 		r.Ob("M4", shortName(cl), "request key agrees between client and built-in handler (`interface`)", cl.Pos(), reqKey == "interface" && srvIn == reqKey, fmt.Sprintf("client sends %q, handler reads %q", reqKey, srvIn))
 		r.Ob("M4", shortName(cl), "reply key agrees between built-in handler and client (`description`)", cl.Pos(), repKey == "description" && srvOut == repKey, fmt.Sprintf("handler sends %q, client reads %q", srvOut, repKey))
 	})
@@ -626,7 +689,7 @@ func testsAtomicWithUpdate(p *Prog, T *Terms, ls *LockSets, reg *ssa.Function, u
 					tests = append(tests, in)
 				}
 			case *ssa.Lookup:
-				if strip(T.T(x.X)) == "param:"+recv+"."+svcF.Interfaces && x.CommaOk {
+				if t := strip(T.T(x.X)); (t == "param:"+recv+"."+svcF.Interfaces || svcTerm(t, recv, svcF.Interfaces)) && x.CommaOk {
 					tests = append(tests, in)
 				}
 			}
@@ -675,4 +738,69 @@ func testsAtomicWithUpdate(p *Prog, T *Terms, ls *LockSets, reg *ssa.Function, u
 		return false, "the duplicate lookup is not performed in the registration function itself"
 	}
 	return true, "tests and update under one continuous hold of the mutex"
+}
+
+// svcTerm: t denotes member fld of the Service parameter recv, directly or inside a state struct it holds by value
+// (`param:s.registry.names`).
+func svcTerm(t, recv, fld string) bool {
+	rest, ok := strings.CutPrefix(t, "param:"+recv+".")
+	if !ok || fld == "" {
+		return false
+	}
+	if rest == fld {
+		return true
+	}
+	path, ok := strings.CutSuffix(rest, "."+fld)
+	if !ok {
+		return false
+	}
+	for _, seg := range strings.Split(path, ".") {
+		if seg == "" || strings.ContainsAny(seg, "(), ") {
+			return false
+		}
+	}
+	return true
+}
+
+// isRegisteredTest: o is the ok-result of looking the key up in the Service's interface table
+// (`ext(lookup(param:s[.path].interfaces,<key>),1)`); an empty key matches any key.
+func isRegisteredTest(o, recv, key string) bool {
+	rest, ok := strings.CutPrefix(o, "ext(lookup(")
+	if !ok {
+		return false
+	}
+	i := strings.Index(rest, ",")
+	if i < 0 || !svcTerm(rest[:i], recv, svcF.Interfaces) {
+		return false
+	}
+	if key == "" {
+		return strings.HasSuffix(rest, "),1)")
+	}
+	return strings.HasPrefix(rest[i+1:], key+"),1)")
+}
+
+// onlyCalledFrom: the functions all of whose call sites lie in the given functions or in functions that are themselves
+// only called from there (helpers private to those functions).
+func onlyCalledFrom(cg *CallGraph, roots map[*ssa.Function]bool) map[*ssa.Function]bool {
+	out := map[*ssa.Function]bool{}
+	for changed := true; changed; {
+		changed = false
+		for f, callers := range cg.Callers {
+			if out[f] || roots[f] || len(callers) == 0 {
+				continue
+			}
+			all := true
+			for _, cs := range callers {
+				if !roots[cs.Fn] && !out[cs.Fn] {
+					all = false
+					break
+				}
+			}
+			if all {
+				out[f] = true
+				changed = true
+			}
+		}
+	}
+	return out
 }
